@@ -5,8 +5,7 @@
     from_str       cfg <hexbytes>                       → Ok(hex) / Err(..)
     from_radix_be  cfg radix <hexbytes-of-digit-values> → S(hex) / N / P
     from_radix_le  cfg radix <hexbytes-of-digit-values> → S(hex) / N / P
-  `radix` is decimal, byte strings are hex-encoded (`-` = empty).  The same ops with the suffix
-  `_fixed` answer with the model after the planned fix of F2 (same spec answer).
+  `radix` is decimal, byte strings are hex-encoded (`-` = empty).
   Spec answers: `Err(*)` for an over-long malformed string (the property leaves the kind open);
   `P|N` for `parse_bytes` with an out-of-range radix (the UTF-8 check runs first).
 -/
@@ -41,19 +40,12 @@ def handle : Handler := fun c op args =>
     if 2 ≤ radix ∧ radix ≤ 36 then expectOpt c (expectParse radix c.signed m s) else "P|N"
   let spDigits (radix : Nat) (msf : List Nat) : String :=
     if 2 ≤ radix ∧ radix ≤ 256 then showOpt toHex (expectDigits radix m msf) else "P"
-  let fsr (fixed : Bool) (s : List Nat) (radix : Nat) : Outcome PRes :=
-    match c.signed, fixed with
-    | false, false => UI.fromStrRadix w n s radix
-    | false, true => UI.fromStrRadixFixed w n s radix
-    | true, false => II.fromStrRadix w n s radix
-    | true, true => II.fromStrRadixFixed w n s radix
+  let fsr (s : List Nat) (radix : Nat) : Outcome PRes :=
+    if c.signed then II.fromStrRadix w n s radix else UI.fromStrRadix w n s radix
   match op, args with
   | "from_str_radix", [r, s] => do
     let radix ← r.toNat?; let s ← parseBytes s
-    some (showOut (showPRes c) (fsr false s radix), spStr radix s)
-  | "from_str_radix_fixed", [r, s] => do
-    let radix ← r.toNat?; let s ← parseBytes s
-    some (showOut (showPRes c) (fsr true s radix), spStr radix s)
+    some (showOut (showPRes c) (fsr s radix), spStr radix s)
   | "parse_bytes", [r, s] => do
     let radix ← r.toNat?; let s ← parseBytes s
     let mo := if c.signed then II.parseBytes w n s radix else UI.parseBytes w n s radix
@@ -68,12 +60,6 @@ def handle : Handler := fun c op args =>
   | "from_radix_le", [r, s] => do
     let radix ← r.toNat?; let s ← parseBytes s
     some (showOut (showOpt (showVal c)) (UI.fromRadixLe w n s radix), spDigits radix s.reverse)
-  | "from_radix_be_fixed", [r, s] => do
-    let radix ← r.toNat?; let s ← parseBytes s
-    some (showOut (showOpt (showVal c)) (UI.fromRadixBeFixed w n s radix), spDigits radix s)
-  | "from_radix_le_fixed", [r, s] => do
-    let radix ← r.toNat?; let s ← parseBytes s
-    some (showOut (showOpt (showVal c)) (UI.fromRadixLeFixed w n s radix), spDigits radix s.reverse)
   | _, _ => none
 
 end Bnum.Drive.C10
